@@ -303,6 +303,25 @@ def case_task(states):
                 if k == 1:
                     for msg in mog_sigma_fails(torch, dd):
                         fail("sampler", msg)
+                if k == 2 and dd == 1 and not rows:
+                    # a network with dropout, in evaluation mode: the density after sampling is the density before
+                    # sampling (the one the samples follow), a function of its argument, and it integrates to one
+                    torch.manual_seed(31)
+                    md = MADEMoG(1, 8, None, num_blocks=1, num_mixture_components=2, dropout_probability=0.4).double()
+                    md.eval()
+                    qd = torch.linspace(-3.0, 3.0, 41, dtype=torch.float64).reshape(-1, 1)
+                    with torch.no_grad():
+                        before = md.log_prob(qd)
+                        try:
+                            md.float().sample(3)
+                            md.double()
+                        except Exception:  # noqa
+                            md.double()
+                        after1, after2 = md.log_prob(qd), md.log_prob(qd)
+                    if not torch.equal(after1, after2) or not torch.allclose(before, after1, atol=1e-6):
+                        fail("sampler", "MADEMoG with dropout, evaluation mode: log_prob after sample() differs from log_prob before it by %.3g (and between two calls by %.3g): the density is no longer the one that was sampled from" % (float((before - after1).abs().max()), float((after1 - after2).abs().max())))
+                    elif any(mod.training for mod in md.modules()):
+                        fail("sampler", "MADEMoG with dropout: sample() in evaluation mode leaves sub-modules in training mode")
                 for r in range(max(rows, 1)):
                     c = ctxs[r : r + 1] if rows else None
                     f = (lambda q: m.log_prob(q, c.expand(q.shape[0], -1))) if rows else (lambda q: m.log_prob(q))
